@@ -373,8 +373,250 @@ theorem ged_loop (hT : TablesAgreeA T) (hA : AbsOK reg byValue app render) (F : 
           rw [et, e5]
           simp only []
           exact after len5 (idx + 5) (by omega) (by omega)
-    · sorry
+    · have cb : (tableCode c.shift == 5) = false := by
+        cases hs : c.shift <;> simp_all [tableCode]
+      simp only [cb, hbin, Bool.false_eq_true, if_false]
+      obtain ⟨sz, hsz, hszK, hszM⟩ : ∃ sz : Nat, (sz = 4 ∨ sz = 5)
+          ∧ (if (tableCode c.shift == 3) = true then (4 : Int) else 5) = (sz : Int)
+          ∧ (if c.shift = Table.digit then 4 else 5) = sz := by
+        cases hs : c.shift <;> simp [tableCode]
+      rw [hszK, hszM]
+      simp only [splitN?_eq, List.length_drop, boolsOf_length]
+      by_cases hsz5 : xs.length - idx < sz
+      · have c5 : decide ((xs.length : Int) - (idx : Int) < (sz : Int)) = true := by simp; omega
+        have n5 : ¬ sz ≤ xs.length - idx := by omega
+        simp only [c5, n5, if_true, if_false, contW_brk, brk_thenR]
+        exact finK_ok reg d0 byValue getCharset app render hA hR _ _ _
+      · have c5 : decide ((xs.length : Int) - (idx : Int) < (sz : Int)) = false := by simp; omega
+        have n5 : sz ≤ xs.length - idx := by omega
+        simp only [c5, n5, if_true, Bool.false_eq_true, if_false]
+        rw [readK xs idx sz (idx : Int) (sz : Int) rfl rfl (by omega) (by omega)]
+        simp only [tryC_ok, List.drop_drop]
+        generalize AztecDecoder.readCode (((boolsOf xs).drop idx).take sz) = code
+        have esz : (idx : Int) + (sz : Int) = ((idx + sz : Nat) : Int) := by omega
+        rw [esz]
+        rcases k_getCharacter_eq T hT c.shift code with ⟨s, e, hm, hcl, hby, hk⟩ | ⟨hm, hk⟩
+        · rw [hm, hk]
+          simp only [tryC_ok, bne_self_eq_false, Bool.false_eq_true, if_false]
+          unfold classifyB at hcl
+          by_cases hflg : s = [70, 76, 71, 40, 110, 41]
+          · -- FLG(n)
+            have he : e = DEntry.flg := by
+              simp only [hflg, if_true, Option.some.injEq] at hcl; exact hcl.symm
+            subst he
+            have cf : (s == [70, 76, 71, 40, 110, 41]) = true := by simp [hflg]
+            simp only [cf, if_true, splitN?_eq, List.length_drop, boolsOf_length, List.drop_drop]
+            by_cases h3 : xs.length - (idx + sz) < 3
+            · have c3 : decide ((xs.length : Int) - ((idx + sz : Nat) : Int) < 3) = true := by simp; omega
+              have n3 : ¬ 3 ≤ xs.length - (idx + sz) := by omega
+              simp only [c3, n3, if_true, if_false, contW_brk, brk_thenR]
+              exact finK_ok reg d0 byValue getCharset app render hA hR _ _ _
+            · have c3 : decide ((xs.length : Int) - ((idx + sz : Nat) : Int) < 3) = false := by simp; omega
+              have n3 : 3 ≤ xs.length - (idx + sz) := by omega
+              simp only [c3, n3, if_true, Bool.false_eq_true, if_false]
+              rw [readK xs (idx + sz) 3 _ 3 rfl rfl (by decide) (by omega)]
+              have hn8 := readCode_take_lt ((boolsOf xs).drop (idx + sz)) 3
+              generalize AztecDecoder.readCode (((boolsOf xs).drop (idx + sz)).take 3) = n at hn8
+              simp only [tryC_ok, hA.app_ok, bne_self_eq_false, Bool.false_eq_true, if_false, slice00]
+              have e3 : ((idx + sz : Nat) : Int) + 3 = ((idx + sz + 3 : Nat) : Int) := by omega
+              rw [e3]
+              have hRf := hR.flush hA.render_nil
+              by_cases hn0 : n = 0
+              · have c0 : (((n : Nat) : Int) == 0) = true := by simp [hn0]
+                simp only [c0, if_true, contW_next]
+                rw [if_pos hn0]
+                apply GAgrees_map
+                apply ihf (idx + sz + 3) ⟨c.latch, c.latch⟩ _ _ _ _ (by omega)
+                refine ⟨?_, hRf.hdec, hRf.henc⟩
+                simp [Data.apply, renderSegs, hRf.hres]
+              · have c0 : (((n : Nat) : Int) == 0) = false := by simp; omega
+                simp only [c0, Bool.false_eq_true, if_false]
+                rw [if_neg hn0]
+                by_cases hn7 : n = 7
+                · have c7 : (((n : Nat) : Int) == 7) = true := by simp [hn7]
+                  simp only [c7, if_true, contW_ret, ret_thenR]
+                  rw [if_pos hn7]
+                  exact ⟨_, rfl⟩
+                · have c7 : (((n : Nat) : Int) == 7) = false := by simp; omega
+                  simp only [c7, Bool.false_eq_true, if_false]
+                  rw [if_neg hn7]
+                  simp only [List.length_drop, boolsOf_length]
+                  by_cases hshort : xs.length - (idx + sz + 3) < 4 * n
+                  · have cs : (!decide ((xs.length : Int) - ((idx + sz + 3 : Nat) : Int) < 4 * ((n : Nat) : Int))) = false := by
+                      simp; omega
+                    simp only [cs, Bool.false_eq_true, if_false, contW_next]
+                    rw [if_pos hshort]
+                    apply GAgrees_map
+                    apply ihf (idx + sz + 3) ⟨c.latch, c.latch⟩ _ _ _ _ (by omega)
+                    exact hRf
+                  · have cs : (!decide ((xs.length : Int) - ((idx + sz + 3 : Nat) : Int) < 4 * ((n : Nat) : Int))) = true := by
+                      simp; omega
+                    simp only [cs, if_true]
+                    rw [if_neg hshort]
+                    have hdg := digits_loop xs (res ++ render enc dec) n (idx + sz + 3) 0 F (by omega) (by omega)
+                    rw [show ((0 : Nat) : Int) = 0 from rfl] at hdg
+                    rcases hdg with ⟨hd1, hd2⟩ | ⟨e', hd1, hd2⟩
+                    · rw [hd1, hd2]
+                      simp only [ret_thenC, contW_ret, ret_thenR]
+                      exact ⟨_, rfl⟩
+                    · rw [hd1, hd2]
+                      simp only [brk_thenC]
+                      obtain ⟨t, er, hbv, hiff⟩ := hA.eci e'
+                      rw [hbv]
+                      simp only [tryC_ok]
+                      by_cases hbad : e' ≥ 900 ∨ reg e' = false
+                      · have hk' := hiff.mpr hbad
+                        have hmod : (if e' ≥ 900 then Step.fail Fault.format
+                            else if (!reg e') = true then Step.fail Fault.format
+                            else Step.next { latch := c.latch, shift := c.latch } ((boolsOf xs).drop (idx + sz + 3 + 4 * n)) [Event.eci e'])
+                            = Step.fail Fault.format := by
+                          rcases hbad with h | h
+                          · simp [h]
+                          · simp [h]
+                        rw [hmod]
+                        rcases hk' with h | h
+                        · subst h; simp only [bne_iff_ne, ne_eq, Bool.true_eq_false, not_false_eq_true, if_true, contW_ret, ret_thenR]
+                          exact ⟨_, rfl⟩
+                        · subst h
+                          cases er <;> simp only [bne_self_eq_false, Bool.false_eq_true, if_false, beq_self_eq_true, if_true,
+                            bne_iff_ne, ne_eq, Bool.true_eq_false, not_false_eq_true, contW_ret, ret_thenR] <;> exact ⟨_, rfl⟩
+                      · have hgood : ¬ (er = true ∨ t = -1) := fun h => hbad (hiff.mp h)
+                        have her : er = false := by cases er <;> simp_all
+                        have ht : (t == -1) = false := by
+                          have : t ≠ -1 := fun h => hgood (Or.inr h)
+                          simpa using this
+                        have h900 : ¬ e' ≥ 900 := fun h => hbad (Or.inl h)
+                        have hreg : reg e' = true := by
+                          cases hr : reg e' with
+                          | true => rfl
+                          | false => exact absurd (Or.inr hr) hbad
+                        subst her
+                        simp only [bne_self_eq_false, Bool.false_eq_true, if_false, ht, contW_next]
+                        rw [if_neg h900]
+                        simp only [hreg, Bool.not_true, Bool.false_eq_true, if_false]
+                        apply GAgrees_map
+                        apply ihf (idx + sz + 3 + 4 * n) ⟨c.latch, c.latch⟩ _ _ _ _ (by omega)
+                        refine ⟨?_, ?_, ?_⟩
+                        · simpa [Data.apply] using hRf.hres
+                        · simpa [Data.apply] using hRf.hdec
+                        · simp [Data.apply, encTok, tokOf, hbv]
+          · have cf : (s == [70, 76, 71, 40, 110, 41]) = false := by simpa using hflg
+            simp only [hflg, if_false] at hcl
+            simp only [cf, Bool.false_eq_true, if_false]
+            by_cases hpre : hasPrefix s [67, 84, 82, 76, 95] = true
+            · -- CTRL_xy: latch / shift
+              simp only [hpre, if_true] at hcl ⊢
+              cases hdr : s.drop 5 with
+              | nil => simp [hdr] at hcl
+              | cons tb r1 =>
+                cases r1 with
+                | nil => simp [hdr] at hcl
+                | cons l r2 =>
+                  simp only [hdr, Option.some.injEq] at hcl
+                  subst hcl
+                  have g5 : s[5]? = some tb := by
+                    have := congrArg (fun l => l[0]?) hdr
+                    simpa using this
+                  have g6 : s[6]? = some l := by
+                    have := congrArg (fun l => l[1]?) hdr
+                    simpa using this
+                  have h5 : GoM.idx s 5 = .ok tb := by
+                    unfold GoM.idx; simp [g5]
+                  have h6 : GoM.idx s 6 = .ok l := by
+                    unfold GoM.idx; simp [g6]
+                  have htb := hby tb (List.mem_of_getElem? g5)
+                  have hgt : Gen.K11c.getTable tb = .ok (tableCode (AztecDecoder.getTable (Char.ofNat tb.toNat))) := by
+                    have := k_getTable_eq tb.toNat (by omega)
+                    rwa [Int.toNat_of_nonneg htb.1] at this
+                  rw [h5]
+                  simp only [tryC_ok]
+                  rw [hgt]
+                  simp only [tryC_ok]
+                  rw [h6]
+                  simp only [tryC_ok, contW_next]
+                  apply GAgrees_map (ev := [])
+                  have := ihf (idx + sz) ⟨if (l == 76) = true then AztecDecoder.getTable (Char.ofNat tb.toNat) else c.shift,
+                    AztecDecoder.getTable (Char.ofNat tb.toNat)⟩ res dec enc d (by omega) hR
+                  have et : tableCode (if (l == 76) = true then AztecDecoder.getTable (Char.ofNat tb.toNat) else c.shift)
+                      = if (l == 76) = true then tableCode (AztecDecoder.getTable (Char.ofNat tb.toNat)) else tableCode c.shift := by
+                    split <;> rfl
+                  rw [et] at this
+                  exact this
+            · -- a text entry: its bytes
+              have hpre' : hasPrefix s [67, 84, 82, 76, 95] = false := by simpa using hpre
+              simp only [hpre', Bool.false_eq_true, if_false, Option.some.injEq] at hcl ⊢
+              subst hcl
+              simp only [contW_next]
+              apply GAgrees_map
+              apply ihf (idx + sz) ⟨c.latch, c.latch⟩ _ _ _ _ (by omega)
+              have hs : nb (s.map Int.toNat) = s := by
+                simp only [nb, List.map_map]
+                conv => rhs; rw [← List.map_id s]
+                apply List.map_congr_left
+                intro x hx
+                have := (hby x hx).1
+                simp only [Function.comp, id]
+                exact Int.toNat_of_nonneg this
+              have := hR.bytes (s.map Int.toNat)
+              rw [hs] at this
+              simpa using this
+        · rw [hm, hk]
+          simp only [tryC_ok]
+          exact ⟨res, rfl⟩
+
+when_kernel Gzx.Gen.K11c.getEncodedData in
+/-- `getEncodedData(correctedBits)` (= `HighLevelDecode`) = the model's `getEncodedData`, for EVERY bit slice: the bytes of
+    `result` are the model's segments rendered by the (uninterpreted) character-set decoder — FNC1 as the raw byte 29 —,
+    FormatException in exactly the model's cases (a code beyond its table, the reserved FLG(7), a non-digit in an ECI, an
+    ECI value ≥ 900 or unregistered); the model never panics and neither does the kernel -/
+theorem k_getEncodedData_eq (hT : TablesAgreeA T) (hA : AbsOK reg byValue app render) (fuel : Nat) (xs : List Int)
+    (hf : xs.length + 8 ≤ fuel) :
+    match AztecDecoder.getEncodedData T reg (boolsOf xs) with
+    | .ok segs => Gen.K11c.getEncodedData fuel d0 byValue getCharset app xs
+        = .ok (renderSegs (encTok d0 byValue getCharset) render segs, false)
+    | .error .format => ∃ r, Gen.K11c.getEncodedData fuel d0 byValue getCharset app xs = .ok (r, true)
+    | .error _ => False := by
+  have hR0 : DRel (encTok d0 byValue getCharset) render [] [] d0 ⟨[], [], none⟩ := ⟨rfl, rfl, rfl⟩
+  have hloop := ged_loop T reg d0 byValue getCharset app render hT hA fuel (by omega) xs xs.length 0 Ctl.init [] [] d0
+    ⟨[], [], none⟩ (xs.length + 1) fuel (by omega) (by omega) (by omega) hR0
+  have hk : Gen.K11c.getEncodedData fuel d0 byValue getCharset app xs
+      = (whileLoop (Gen.K11c.getEncodedData_body1 fuel app byValue getCharset xs (xs.length : Int)) fuel
+          (tableCode Ctl.init.latch, tableCode Ctl.init.shift, [], [], d0, ((0 : Nat) : Int))).thenR (finK app) := by
+    unfold Gen.K11c.getEncodedData
+    have hcap : ∀ c : Int, 0 ≤ c → mk3n 0 c = .ok [] := by
+      intro c hc; unfold mk3n; simp; omega
+    have hmk2 : mk 0 = .ok [] := rfl
+    simp only []
+    have hnn : ∀ c : Int, 0 ≤ (if decide (c < 0) = true then 0 else c) := by
+      intro c; by_cases h : c < 0 <;> simp [h]; omega
+    rw [hcap _ (hnn _), hmk2]
+    rfl
+  rw [← hk] at hloop
+  simp only [List.drop_zero] at hloop
+  unfold AztecDecoder.getEncodedData
+  simp only [boolsOf_length]
+  cases hm : AztecDecoder.loop T reg (xs.length + 1) Ctl.init (boolsOf xs) with
+  | error e =>
+    rw [hm] at hloop
+    cases e <;> simpa [GAgrees, Except.map] using hloop
+  | ok evs =>
+    rw [hm] at hloop
+    simpa [GAgrees, Except.map, segments] using hloop
 
 end
+
+/-- non-vacuity: an environment that satisfies `AbsOK` (UTF-8 registered as ECI 26, the decoders the identity) -/
+example : AbsOK (fun n => n == 26) (fun v => .ok (if v == 26 then 26 else -1, decide (v ≥ 900)))
+    (fun _ r d => .ok (r ++ d, false)) (fun _ d => d) := by
+  refine ⟨fun _ _ _ => rfl, fun _ => rfl, fun n => ⟨_, _, rfl, ?_⟩⟩
+  by_cases h : n = 26
+  · subst h; simp
+  · have : ¬ ((n : Int) = 26) := by omega
+    simp [h, this]
+
+/-- "A", then P/S "." (upper 2, upper 0 = CTRL_PS, punct 19) — and the reserved FLG(7) -/
+example : Gen.K11c.getEncodedData 40 0 (fun v => .ok (if v == 26 then 26 else -1, decide (v ≥ 900))) (fun t => t)
+    (fun _ r d => .ok (r ++ d, false)) (bitsI ([false, false, false, true, false] ++ [false, false, false, false, false]
+      ++ [true, false, false, true, true])) = .ok ([65, 46], false) := by decide
 
 end Gzx.Obligations.K11c
